@@ -1063,7 +1063,7 @@ func varIndexRule(p *core.Program, r *core.Report, fns []*ssa.Function, rule str
 		sites := varIndexSites(fn)
 		sort.SliceStable(sites, func(i, j int) bool { return sites[i].instr.Pos() < sites[j].instr.Pos() })
 		for _, site := range sites {
-			if f, ok := fwd[fn]; ok && site.idx == ssa.Value(fn.Params[f.param]) {
+			if f, ok := fwd[fn]; ok && (site.idx == ssa.Value(fn.Params[f.param]) || forwardedParam(site) == fn.Params[f.param]) {
 				r.OK(rule, core.FuncName(fn)+"/forwards-index", p.Pos(site.instr.Pos()), "indexes "+f.measured+" with its parameter unchecked: decided at each call site")
 				continue
 			}
